@@ -122,7 +122,7 @@ func init() {
 			slow := []cliEv{{K: "start", I: 0}, {K: "start", I: 1}, {K: "resp", I: 0}, {K: "resp", I: 1}, {K: "unknown"}, {K: "tick", Arg: 0}, {K: "tick", Arg: 1}}
 			cliHistories(c, "C12", cliOpts{Fallback: true, RTO: int64(2 * time.Minute)}, slow, depth, eps, "Hslow")
 			cliHistories(c, "C12", cliOpts{Fallback: true, RTO: int64(100 * 365 * 24 * time.Hour), NoRetransmit: true}, slow, depth-1, eps, "Hcenturies")
-			small := []cliEv{{K: "start", I: 0}, {K: "start", I: 1}, {K: "resp", I: 0}, {K: "resp", I: 1, Arg: 2}, {K: "unknown"}, {K: "tick", Arg: 1}, {K: "failagent"}, {K: "failwrite"}}
+			small := []cliEv{{K: "start", I: 0}, {K: "start", I: 1}, {K: "resp", I: 0}, {K: "resp", I: 1, Arg: 2}, {K: "unknown"}, {K: "tick", Arg: 1}, {K: "failagent"}, {K: "failwrite"}, {K: "failwrite", Arg: 1}}
 			cliHistoriesFrom(c, "C12", cliOpts{Fallback: true, PoolFanout: true}, []cliEv{{K: "start", I: 0}, {K: "resp", I: 0}}, small, depth, eps, "Hafter")
 			ev := func(k string, i int) cliEv { return cliEv{K: k, I: i} }
 			tickAfter := cliEv{K: "tick", Arg: 1}
@@ -175,7 +175,7 @@ func init() {
 			}
 			alpha := []cliEv{
 				{K: "start", I: 0}, {K: "do", I: 1}, {K: "resp", I: 0}, {K: "resp", I: 1},
-				{K: "tick", Arg: 1}, {K: "failwrite"}, {K: "readerr", Arg: 1}, {K: "readerr", Arg: 2}, {K: "readerr", Arg: 3}, {K: "close"},
+				{K: "tick", Arg: 1}, {K: "failwrite"}, {K: "failwrite", Arg: 1}, {K: "readerr", Arg: 1}, {K: "readerr", Arg: 2}, {K: "readerr", Arg: 3}, {K: "close"},
 			}
 			optSets := []cliOpts{
 				{}, {NoConnClose: true}, {Fallback: true}, {NoRetransmit: true}, {ConnCloseErr: true}, {AgentCloseErr: true},
